@@ -95,7 +95,8 @@ def rule_taint(ctx):
     if a is not None:
         steps = list(method_calls(a["body"], "add_taint_step"))
         conts = [x for x in walk(a["body"]) if x["k"] in ("Continue", "Break", "Return")]
-        okc = len(conts) == 1 and [fact_str(c).replace(" ", "") for c in (conditions_to(a["body"], conts[0]) or [])] == ["cond.value().is_some()"]
+        # (that the step itself sits under `!cond.value().is_some()` and nothing else is checked below)
+        okc = len(conts) <= 1 and all([fact_str(c).replace(" ", "") for c in (conditions_to(a["body"], x) or [])] == ["cond.value().is_some()"] for x in conts)
         ctx.check(R, "IfThenElse/skipped-only-for-a-known-constant-condition", okc, "early exits: %s" % [facts_str(conditions_to(a["body"], x) or []) for x in conts], site(TA, a))
         le = let_env(a["body"])
         tb, fb = le.get("true_branch"), le.get("false_branch")
